@@ -254,6 +254,12 @@ R_la_generic ==
     LA(IntT, <<Neg(EqT(IntT, ix, iy)), Le(IntT, ix, iy)>>, <<1, 1>>),
     LA(IntT, <<Neg(Le(IntT, Times(IntT, Num(IntT, 2), ix), Num(IntT, 1))), Le(IntT, ix, Num(IntT, 0))>>, <<1, 2>>),
     LA(IntT, <<Lt(IntT, ix, iy), Lt(IntT, iy, ix), Neg(Lt(IntT, ix, Num(IntT, 0))), Lt(IntT, iy, Num(IntT, 0))>>, <<1, 1, 1, 1>>),
+    LA(IntT, <<Neg(Le(IntT, Num(IntT, 1), Times(IntT, Num(IntT, 2), ix))), Le(IntT, Num(IntT, 1), ix)>>, <<1, 2>>),
+    LA(IntT, <<Neg(Le(IntT, Times(IntT, Num(IntT, 3), ix), Num(IntT, 2))), Le(IntT, ix, Num(IntT, 0))>>, <<1, 3>>),
+    LA(IntT, <<Neg(EqT(IntT, ix, iy)), Neg(Lt(IntT, ix, iy))>>, <<1, 1>>),
+    LA(IntT, <<Neg(EqT(IntT, Plus(IntT, ix, Num(IntT, 1)), iy)), Lt(IntT, ix, iy)>>, <<1, 1>>),
+    LA(RealT, <<Neg(EqT(RealT, ru, rv)), Le(RealT, rv, ru)>>, <<1, 1>>),
+    LA(RealT, <<Neg(Lt(RealT, Times(RealT, Num(RealT, 2), ru), rv)), Neg(Le(RealT, rv, ru)), Lt(RealT, ru, Num(RealT, 0))>>, <<1, 1, 1>>),
     LA(RealT, <<Neg(Lt(RealT, ru, rv)), Neg(Lt(RealT, rv, ru))>>, <<1, 1>>),
     LA(RealT, <<Le(RealT, ru, rv), Le(RealT, rv, ru)>>, <<1, 1>>),
     LA(RealT, <<Neg(Le(RealT, Times(RealT, Num(RealT, 2), ru), Num(RealT, 1))), Le(RealT, ru, Num(RealT, 1))>>, <<1, 2>>),
@@ -382,6 +388,11 @@ Muts(t, d) == LocalMuts(t)
               \cup (IF d > 0 /\ t[1] = "comb" /\ ~IsNumeral(t)
                     THEN { <<m[1], App(m[2], t[3])>> : m \in Muts(t[2], d) } \cup { <<m[1], App(t[2], m[2])>> : m \in Muts(t[3], d - 1) }
                     ELSE {})
+\* boolean subformulas to a depth (for the "wrong component" near miss: a literal replaced by another formula of the step)
+RECURSIVE Parts(_,_)
+Parts(t, d) == (IF TypeOf(t, <<>>) = BoolT THEN {t} ELSE {})
+               \cup (IF d > 0 /\ t[1] = "comb" THEN Parts(t[2], d) \cup Parts(t[3], d - 1) ELSE {})
+PartsOf(i) == UNION { Parts(i.prems[j].c, 2) : j \in 1..Len(i.prems) } \cup UNION { Parts(i.cl[k], 2) : k \in 1..Len(i.cl) }
 DelAt(s, k) == [j \in 1..(Len(s) - 1) |-> IF j < k THEN s[j] ELSE s[j + 1]]
 SwapAt(s, k) == [j \in 1..Len(s) |-> IF j = k THEN s[k + 1] ELSE IF j = k + 1 THEN s[k] ELSE s[j]]
 SetAt(s, k, v) == [s EXCEPT ![k] = v]
@@ -391,6 +402,7 @@ NearMisses(i) ==
      { [i EXCEPT !.mut = "droplit", !.cl = DelAt(i.cl, k)] : k \in 1..n }
   \cup { [i EXCEPT !.mut = "addlit", !.cl = Append(i.cl, x)] : x \in {vr, Neg(vp)} }
   \cup { [i EXCEPT !.mut = "swaplit", !.cl = SwapAt(i.cl, k)] : k \in 1..(n - 1) }
+  \cup UNION { { [i EXCEPT !.mut = "sib", !.cl = SetAt(i.cl, k, x)] : x \in PartsOf(i) \ {i.cl[k]} } : k \in 1..n }
   \cup UNION { { [i EXCEPT !.mut = "L." \o mu[1], !.cl = SetAt(i.cl, k, mu[2])] : mu \in Muts(i.cl[k], MutDepth) } : k \in 1..n }
   \cup UNION { { [i EXCEPT !.mut = "P." \o mu[1], !.prems = SetAt(i.prems, j, [h |-> i.prems[j].h, c |-> mu[2]])] : mu \in Muts(i.prems[j].c, MutDepth) } : j \in 1..m }
   \cup { [i EXCEPT !.mut = "dropprem", !.prems = DelAt(i.prems, j), !.x.sizes = IF Len(i.x.sizes) = m THEN DelAt(i.x.sizes, j) ELSE i.x.sizes] : j \in 1..m }
